@@ -20,7 +20,16 @@ def gen_committed(r, depth=2):
         elif k == 4 and depth > 0:
             parts.append([r.choice(['bracket', 'bracketdef', 'bracketidx', 'bracketdefidx']), ['LK', 'LP'], gen_committed(r, depth - 1), ['RK', 'RP'], []])
         elif k == 5:
-            g = gen_list(r); parts.append(g)
+            g = gen_list(r)
+            if r.chance(1, 2):
+                # a recovering item parser (a committed position): e.g. list_default(recover_default(item, before sep/abort), ..)
+                g = list(g)
+                ab = g[-1]
+                ii = 1 if g[0] in ('list', 'listdef') else 3
+                g[ii] = [r.choice(['recoverdef', 'recover']), ['beforeany', 'Comma'] + list(ab), g[ii]]
+                if not ab:
+                    g[ii][1] = ['before', 'Comma']
+            parts.append(g)
         elif k == 6: parts.append(['maybe', ['one', r.choice(['A', 'B', 'Semi'])]])
         elif k == 7: parts.append(['either', ['seq', 'A', 'B'], ['one', 'A']])
         else: parts.append(['one', r.choice(['A', 'B', 'Semi', 'Comma'])])
